@@ -141,6 +141,7 @@ func parseKind(s string) (kind, bool) {
 type task struct {
 	tag, id      int // id < 0: scheduled through Executor.ExecuteAt
 	dueClock     int
+	far          bool          // due at an instant far away from the session (farInstant)
 	after        time.Duration // > 0: given through ExecuteAfter with this delay
 	due          time.Time
 	kind         kind
@@ -208,6 +209,30 @@ func (w *world) fail(oracle, detail string, sig map[string]string) {
 func (w *world) at(clock int) time.Time { return w.base.Add(time.Duration(clock) * w.unit) }
 
 func (w *world) idx(t time.Time) int { return int(t.Sub(w.base) / w.unit) }
+
+// farClock is the first of the clock values that stand for instants a session never reaches.
+const farClock = 1000000
+
+// farInstant: the instants far away from the session that op lines name instead of a due clock, with the clock the
+// model uses for them (0: long past, due at once and before everything; > farClock: never reached).
+func farInstant(tok string) (time.Time, int, bool) {
+	switch tok {
+	case "z":
+		return time.Time{}, 0, true
+	case "y1600":
+		return time.Date(1600, 1, 1, 0, 0, 0, 0, time.UTC), 0, true
+	case "y2300":
+		return time.Date(2300, 1, 1, 0, 0, 0, 0, time.UTC), farClock + 1, true
+	case "n300":
+		return time.Now().AddDate(300, 0, 0), farClock + 3, true
+	case "y9999":
+		return time.Date(9999, 12, 31, 23, 59, 59, 0, time.UTC), farClock + 5, true
+	case "u62":
+		return time.Unix(1<<62, 0), farClock + 7, true
+	}
+
+	return time.Time{}, 0, false
+}
 
 // relCh must be called with mu held.
 func (w *world) relCh(tag int) chan struct{} {
@@ -314,11 +339,11 @@ func (w *world) execTracked(t *task) string {
 	// ExecuteAt / Cancel calls must see (and be seen by) the books in the order of the real calls
 	w.regMu.Lock()
 	defer w.regMu.Unlock()
+	sizeBefore := w.te.Size() // not under w.mu: if the queue's lock leaked, only this goroutine must hang
 	w.mu.Lock()
 	if old := w.pendingOf(t.id); old != nil {
 		old.replaced = true
 	}
-	sizeBefore := w.te.Size()
 	replacing := w.pendingOf(t.id) != nil || w.idReg[t.id] != nil
 	w.mu.Unlock()
 	var h *timed.ScheduledTask
@@ -378,10 +403,10 @@ func (w *world) execTracked(t *task) string {
 func (w *world) cancelID(id int, fromCallback bool) string {
 	w.regMu.Lock()
 	defer w.regMu.Unlock()
+	sizeBefore := w.te.Size()
 	w.mu.Lock()
 	exp := w.pendingOf(id)
 	reg := w.idReg[id]
-	sizeBefore := w.te.Size()
 	allBlocked := w.blocked == w.w
 	w.mu.Unlock()
 	got := w.te.Cancel(id)
@@ -449,6 +474,7 @@ func (w *world) exec(f []string, now int) string {
 		return "done"
 	case "add", "exec", "addafter", "execafter":
 		var t *task
+		farTok := ""
 		if f[0] == "add" || f[0] == "addafter" {
 			tag, _ := strconv.Atoi(f[1])
 			due, _ := strconv.Atoi(f[2])
@@ -457,6 +483,7 @@ func (w *world) exec(f []string, now int) string {
 				return "bad-op"
 			}
 			t = &task{tag: tag, id: -1, dueClock: due, kind: k}
+			farTok = f[2]
 		} else {
 			id, _ := strconv.Atoi(f[1])
 			tag, _ := strconv.Atoi(f[2])
@@ -466,6 +493,7 @@ func (w *world) exec(f []string, now int) string {
 				return "bad-op"
 			}
 			t = &task{tag: tag, id: id, dueClock: due, kind: k}
+			farTok = f[3]
 		}
 		if strings.HasSuffix(f[0], "after") {
 			// ExecuteAfter: the number in the line is the delay; the never-early bound is the clock read before the call
@@ -474,9 +502,12 @@ func (w *world) exec(f []string, now int) string {
 			t.dueClock += now
 		}
 		t.due = w.at(t.dueClock)
+		if inst, clk, ok := farInstant(farTok); ok && t.after == 0 {
+			t.due, t.dueClock, t.far = inst, clk, true
+		}
 		w.mu.Lock()
 		w.tasks[t.tag] = t
-		if w.armTags[t.tag] && t.after == 0 {
+		if w.armTags[t.tag] && t.after == 0 && !t.far {
 			// the hook is keyed by the scheduled time: an armed task gets an instant of its own (the generator gives
 			// armed tasks a due clock that no other task of the case has, so this does not reorder anything)
 			t.due = t.due.Add(time.Duration(1+armSeq.Add(1)%900000) * time.Nanosecond)
@@ -603,6 +634,7 @@ type caseResult struct {
 	tries   int
 	hist    map[string]int
 	robust  []finding // timing-independent findings of a case that stayed timing-invalid
+	hung    bool      // an operation did not return: no retry
 }
 
 // runOnce executes the op lines with the given unit; valid=false if the timing of the harness itself was off.
@@ -627,23 +659,25 @@ func runOnce(lines []string, unit time.Duration) (res caseResult) {
 	}
 	defer func() {
 		close(stop)
-		// let everything go and stop the workers
+		// let everything go and stop the workers (in a goroutine of its own: after a hang the books may be locked)
 		if w.te != nil {
-			worlds.Delete(w.qptr)
-			w.mu.Lock()
-			for _, t := range w.tasks {
-				c := w.relCh(t.tag)
-				select {
-				case <-c:
-				default:
-					close(c)
+			go func() {
+				worlds.Delete(w.qptr)
+				w.mu.Lock()
+				for _, t := range w.tasks {
+					c := w.relCh(t.tag)
+					select {
+					case <-c:
+					default:
+						close(c)
+					}
+					if w.armTags[t.tag] {
+						armed.Delete(t.due.UnixNano())
+					}
 				}
-				if w.armTags[t.tag] {
-					armed.Delete(t.due.UnixNano())
-				}
-			}
-			w.mu.Unlock()
-			hx.Safely(func() { w.te.Shutdown(timed.CancelPendingElements, timed.DontWaitForShutdown) })
+				w.mu.Unlock()
+				hx.Safely(func() { w.te.Shutdown(timed.CancelPendingElements, timed.DontWaitForShutdown) })
+			}()
 		}
 	}()
 	sleepUntil := func(t time.Time) {
@@ -697,15 +731,46 @@ func runOnce(lines []string, unit time.Duration) (res caseResult) {
 		if late := time.Since(target); late > w.maxLate {
 			w.maxLate = late
 		}
-		ans := w.exec(f[1:], now)
-		w.mu.Lock()
-		w.marks = append(w.marks, time.Now())
-		w.mu.Unlock()
-		sleepUntil(target.Add(unit / 2))
-		if ans != "bad-op" {
-			ans += " sz=" + strconv.Itoa(w.te.Size())
+		// watchdog: an operation of the public API (and the Size() that follows it) returns at once; if it does not
+		// come back within seconds the case hangs (a leaked lock, ...): that is a finding with this case as replay,
+		// the rest of the case is skipped and the other cases go on
+		type opRes struct{ ans string }
+		opDone := make(chan opRes, 1)
+		go func() {
+			ans := w.exec(f[1:], now)
+			w.mu.Lock()
+			w.marks = append(w.marks, time.Now())
+			w.mu.Unlock()
+			sleepUntil(target.Add(unit / 2))
+			if ans != "bad-op" {
+				ans += " sz=" + strconv.Itoa(w.te.Size())
+			}
+			opDone <- opRes{ans}
+		}()
+		select {
+		case o := <-opDone:
+			res.answers = append(res.answers, o.ans)
+		case <-time.After(unit/2 + 4*time.Second):
+			locked := false
+			for i := 0; i < 50 && !locked; i++ { // the books may be locked by a goroutine that hangs as well
+				if locked = w.mu.TryLock(); !locked {
+					time.Sleep(2 * time.Millisecond)
+				}
+			}
+			w.fail("hang", fmt.Sprintf("operation '%s' (or the Size() after it) did not return within 4s", line),
+				map[string]string{"oracle": "hang", "op": f[1]})
+			if locked {
+				w.mu.Unlock()
+			}
+			for len(res.answers) < len(lines) {
+				res.answers = append(res.answers, "hang")
+			}
+			res.finds = w.finds
+			res.valid = true
+			res.hung = true
+
+			return res
 		}
-		res.answers = append(res.answers, ans)
 	}
 	res.finds = w.finds
 	res.valid = time.Duration(maxOver.Load()) <= unit/4 && w.maxLate <= unit/4 && !w.timeout.Load() && !w.slowCall.Load() && !w.glitch
@@ -718,12 +783,34 @@ func (w *world) finish(T int) string {
 	owed := func() (missing []*task, hung []*sdCall) {
 		w.mu.Lock()
 		defer w.mu.Unlock()
+		// a worker that polled an element due in centuries waits for it (until it is cancelled or a Shutdown flag
+		// applies): with every worker in that state nothing else is owed
+		stuck := 0
+		w.popMu.Lock()
+		for _, t := range w.tasks {
+			if t.far && t.dueClock > farClock && t.scheduled && len(t.runs) == 0 && !t.cancelTrue && !t.replaced && !t.ecancelled && !t.sdDropped {
+				for _, e := range w.qev {
+					if e.pop && e.due.Equal(t.due) {
+						stuck++
+
+						break
+					}
+				}
+			}
+		}
+		w.popMu.Unlock()
 		for _, t := range w.tasks {
 			if t.scheduled && len(t.runs) == 0 && !t.cancelTrue && !t.replaced && !t.ecancelled && !t.sdDropped {
+				if t.dueClock > farClock && !w.ignore {
+					continue // not due in this session
+				}
+				if stuck >= w.w {
+					continue
+				}
 				missing = append(missing, t)
 			}
 		}
-		if w.blocked == 0 {
+		if w.blocked == 0 && stuck == 0 {
 			for _, c := range w.sd {
 				if !c.returned && !strings.Contains(c.flags, "d") {
 					hung = append(hung, c)
@@ -963,6 +1050,24 @@ func genCase(rng *hx.Rng) []string {
 	shut := false
 	useArm := M == 0 && rng.Chance(1, 6)
 	armedOne := false
+	// instants far away from the session: some cases schedule one or two tasks centuries ahead (never due in the
+	// session; IgnorePendingTimeouts delivers them, CancelPendingElements drops them) and tasks long past (zero
+	// time.Time or the year 1600 - one of the two per case, they are the same clock 0 for the model)
+	farCase := !useArm && rng.Chance(1, 5)
+	farLeft := rng.Range(1, 2)
+	pastTok := hx.Pick(rng, []string{"z", "y1600"})
+	farDue := func() string {
+		if farCase && farLeft > 0 && rng.Chance(1, 3) {
+			farLeft--
+
+			return hx.Pick(rng, []string{"y2300", "n300", "y9999", "u62"})
+		}
+		if !useArm && rng.Chance(1, 14) {
+			return pastTok
+		}
+
+		return ""
+	}
 	used := map[int]bool{}     // due clocks handed out so far
 	reserved := map[int]bool{} // due clocks of armed tasks: nobody else may have them
 	fix := func(d int, unique bool) int {
@@ -1021,6 +1126,12 @@ func genCase(rng *hx.Rng) []string {
 		case x < 45:
 			id := rng.Range(1, 3)
 			mytag := tag
+			if ft := farDue(); ft != "" {
+				lines = append(lines, fmt.Sprintf("%d exec %d %d %s plain", clock, id, mytag, ft))
+				tag++
+
+				break
+			}
 			after := rng.Chance(1, 4)
 			due, k := genTask(true, after)
 			if due > clock && after {
@@ -1032,6 +1143,13 @@ func genCase(rng *hx.Rng) []string {
 			tag++
 		case x < 55:
 			mytag := tag
+			if ft := farDue(); ft != "" {
+				lines = append(lines, fmt.Sprintf("%d add %d %s plain", clock, mytag, ft))
+				rawTags = append(rawTags, mytag)
+				tag++
+
+				break
+			}
 			after := rng.Chance(1, 4)
 			due, k := genTask(false, after)
 			if due > clock && after {
@@ -1055,6 +1173,10 @@ func genCase(rng *hx.Rng) []string {
 				if rng.Chance(1, 3) {
 					fl += string(c)
 				}
+			}
+			if farCase && !strings.ContainsAny(fl, "ci") {
+				// a Shutdown that waits out an element due in centuries never returns
+				fl += hx.Pick(rng, []string{"c", "i"})
 			}
 			if fl == "" {
 				fl = "-"
@@ -1124,6 +1246,16 @@ func corpus() [][]string {
 		{"new 2 0", "0 add 10 9 plain", "2 add 11 13 plain", "4 add 12 5 plain", "6 add 13 3 plain", "8 ecancel 10", "end 16"},
 	}
 	c = append(c,
+		// instants far away: never delivered in the session, delivered at once by IgnorePendingTimeouts, dropped by
+		// CancelPendingElements; long past ones are due at once and before everything else
+		[]string{"new 1 0", "0 add 10 y2300 plain", "2 add 11 z plain", "4 add 12 5 plain", "6 shutdown id", "end 10"},
+		[]string{"new 2 0", "0 exec 1 10 u62 plain", "2 exec 2 11 y9999 plain", "4 add 12 5 plain", "6 add 13 y1600 plain", "8 cancel 1", "10 add 14 11 plain", "12 shutdown c", "end 16"},
+		[]string{"new 2 0", "0 add 10 n300 plain", "2 add 11 7 plain", "4 add 12 z plain", "6 add 13 y1600 plain", "8 ecancel 10", "end 12"},
+		[]string{"new 3 2", "0 add 10 y9999 plain", "2 add 11 y2300 plain", "4 add 12 n300 plain", "6 add 13 9 plain", "8 shutdown i", "end 12"},
+		// Shutdown(PanicOnModificationsAfterShutdown) with tasks pending, then a refused (panicking) ExecuteAt: the
+		// pending tasks are still delivered and Cancel still returns
+		[]string{"new 1 0", "0 exec 1 10 9 plain", "2 add 11 11 plain", "4 shutdown pd", "6 exec 2 12 13 plain", "8 cancel 1", "end 16"},
+		[]string{"new 2 0", "0 add 10 7 plain", "2 add 11 9 plain", "4 add 12 11 plain", "6 shutdown p", "8 add 13 13 plain", "10 ecancel 12", "end 16"},
 		// ExecuteAfter: the due time is the call time plus the delay
 		[]string{"new 1 0", "0 execafter 1 10 5 plain", "2 addafter 11 9 plain", "4 execafter 1 12 3 plain", "end 14"},
 		[]string{"new 2 1", "0 addafter 10 7 block", "2 addafter 11 3 plain", "4 execafter 2 12 9 plain", "6 addafter 13 1 plain", "10 release 10", "end 16"})
@@ -1807,12 +1939,22 @@ func runQSeqLine(r *rec, line string) {
 	if v := q.Poll(false); v != nil {
 		fail("never-early", "Poll(false) on an empty queue returned a value", "poll-empty")
 	}
+	farFuture := map[int]bool{}
 	for _, tok := range f[2:] {
 		n, _ := strconv.Atoi(tok[1:])
 		switch tok[0] {
 		case 'a':
 			v := len(hs)
 			due := base.Add(time.Duration(n) * step)
+			// instants far away from the session: p0 = zero time.Time, p1 = year 1600, f0..f3 = year 2300, now+300y,
+			// 9999-12-31, time.Unix(1<<62, 0)
+			if len(tok) == 3 && (tok[1] == 'p' || tok[1] == 'f') {
+				name := map[string]string{"p0": "z", "p1": "y1600", "f0": "y2300", "f1": "n300", "f2": "y9999", "f3": "u62"}[tok[1:]]
+				if inst, _, ok := farInstant(name); ok {
+					due = inst
+					farFuture[v] = tok[1] == 'f'
+				}
+			}
 			h := q.Add(&v, due)
 			if h == nil {
 				fail("eventually-delivered", "Add returned nil before Shutdown", "refused")
@@ -1829,23 +1971,43 @@ func runQSeqLine(r *rec, line string) {
 	size := q.Size()
 	var order []string
 	seen := map[int]bool{}
+	ignored := false // Shutdown(IgnorePendingTimeouts) was called: what is left comes out at once, in heap order
 	for {
 		var v *int
 		done := make(chan struct{})
 		go func() { v = q.Poll(false); close(done) }()
 		select {
 		case <-done:
-		case <-time.After(5 * time.Second):
-			fail("eventually-delivered", "Poll(false) on a non-empty queue did not return within 5s", "poll-hang")
-			r.Line(line, "hang")
+		case <-time.After(60 * time.Millisecond):
+			// every ordinary element is due within 25 ms: the poller holds an element due in centuries
+			if ignored {
+				fail("eventually-delivered", "Poll(false) did not return after Shutdown(IgnorePendingTimeouts)", "poll-hang")
+				r.Line(line, "hang")
 
-			return
+				return
+			}
+			far := false
+			for i := range hs {
+				far = far || (farFuture[i] && !seen[i] && !cancelled[i])
+			}
+			if far {
+				ignored = true
+				q.Shutdown(timed.IgnorePendingTimeouts)
+			}
+			select {
+			case <-done:
+			case <-time.After(5 * time.Second):
+				fail("eventually-delivered", fmt.Sprintf("Poll(false) on a non-empty queue did not return within 5s (far-future element held and Shutdown(IgnorePendingTimeouts) called: %v)", far), "poll-hang")
+				r.Line(line, "hang")
+
+				return
+			}
 		}
 		now := time.Now()
 		if v == nil {
 			break
 		}
-		if now.Before(dues[*v]) {
+		if now.Before(dues[*v]) && !ignored {
 			fail("never-early", fmt.Sprintf("Poll(false) returned element %d %v before its time", *v, dues[*v].Sub(now)), "early")
 		}
 		if seen[*v] {
@@ -1866,7 +2028,9 @@ func runQSeqLine(r *rec, line string) {
 	} else if len(seen) > m {
 		fail("harness", fmt.Sprintf("%d elements delivered from a queue with max size %d that was filled before anything was polled", len(seen), m), "size-bound")
 	}
-	q.Shutdown()
+	if !ignored {
+		q.Shutdown()
+	}
 	if !q.IsShutdown() {
 		fail("harness", "IsShutdown() is false after Shutdown", "is-shutdown")
 	}
@@ -1899,7 +2063,14 @@ func genQSeq(rng *hx.Rng) string {
 		if adds > 0 && rng.Chance(1, 5) {
 			toks = append(toks, fmt.Sprintf("c%d", rng.Intn(adds)))
 		} else {
-			toks = append(toks, fmt.Sprintf("a%d", rng.Intn(6))) // few ranks: ties are frequent
+			switch y := rng.Intn(12); {
+			case y == 0:
+				toks = append(toks, "a"+hx.Pick(rng, []string{"p0", "p1"}))
+			case y == 1:
+				toks = append(toks, "a"+hx.Pick(rng, []string{"f0", "f1", "f2", "f3"}))
+			default:
+				toks = append(toks, fmt.Sprintf("a%d", rng.Intn(6))) // few ranks: ties are frequent
+			}
 			adds++
 		}
 	}
@@ -1909,7 +2080,8 @@ func genQSeq(rng *hx.Rng) string {
 
 func runQSeqs(r *rec, sub uint64, count int) {
 	rng := hx.NewRng(sub)
-	lines := []string{"qseq 2 a5 a3 a3 a1 c1 a4", "qseq 0 a2 a2 a1 c0", "qseq 1 a1 a1 a0", "qseq 3 a0 a0 a0 a0 a0", "qseq 0 a4 a1 c0 c0 a1"}
+	lines := []string{"qseq 2 a5 a3 a3 a1 c1 a4", "qseq 0 a2 a2 a1 c0", "qseq 1 a1 a1 a0", "qseq 3 a0 a0 a0 a0 a0", "qseq 0 a4 a1 c0 c0 a1",
+		"qseq 0 af1 a3 ap1 a0 ap0 af0", "qseq 0 af3 af2 a1", "qseq 2 af0 a2 ap0 a1", "qseq 0 ap1 ap0 a0 af2 c3"}
 	for i := 0; i < count; i++ {
 		lines = append(lines, genQSeq(rng))
 	}
@@ -1942,6 +2114,7 @@ type qItem struct {
 	due       time.Time
 	h         *timed.QueueElement[*qItem]
 	delivered atomic.Int32
+	far       bool         // due in centuries
 	at        atomic.Int64 // us since base
 	cancelAt  atomic.Int64 // us since base when Cancel() had returned (0: not cancelled)
 }
@@ -2043,6 +2216,12 @@ func runQSess(r *rec, sub uint64, producers, consumers, m int, fl string, reps i
 				for k := 0; k < perProducer; k++ {
 					it := items[first+p*perProducer+k]
 					it.due = base.Add(time.Duration(2+lr.Intn(14)) * grid)
+					switch lr.Intn(15) {
+					case 0:
+						it.due = time.Time{} // long past: due at once
+					case 1:
+						it.due = time.Date(1600, 1, 1, 0, 0, 0, 0, time.UTC)
+					}
 					logf("sched %d - %d", it.x, us(it.due))
 					it.h = q.Add(it, it.due)
 					if lr.Chance(1, 6) && it.h != nil {
@@ -2066,6 +2245,26 @@ func runQSess(r *rec, sub uint64, producers, consumers, m int, fl string, reps i
 			flags = append(flags, timed.IgnorePendingTimeouts)
 		}
 		midway := !strings.Contains(fl, "e")
+		// elements due in centuries: never delivered in the session unless IgnorePendingTimeouts is given.  With a
+		// Shutdown in the middle that has a flag they go in first (a consumer may hold one until then), otherwise
+		// after the producers (a consumer holding one is of no use to later elements)
+		var farItems []*qItem
+		addFar := func() {
+			for _, name := range []string{"y2300", "n300", "y9999", "u62"}[:2+rep%3] {
+				inst, _, _ := farInstant(name)
+				imu.Lock()
+				x++
+				it := &qItem{x: x, due: inst, far: true}
+				items = append(items, it)
+				imu.Unlock()
+				logf("sched %d - %d", it.x, int64(1)<<60)
+				it.h = q.Add(it, inst)
+				farItems = append(farItems, it)
+			}
+		}
+		if midway && strings.ContainsAny(fl, "ci") {
+			addFar()
+		}
 		if midway {
 			time.Sleep(time.Duration(3+rng.Intn(5)) * grid)
 			if strings.Contains(fl, "i") {
@@ -2076,11 +2275,14 @@ func runQSess(r *rec, sub uint64, producers, consumers, m int, fl string, reps i
 			q.Shutdown(flags...)
 		}
 		pwg.Wait()
+		if !midway {
+			addFar()
+		}
 		// everything accepted is due within 16 grid steps
 		deadline := time.Now().Add(2 * time.Second)
 		pending := func() (n int) {
 			for _, it := range items[first:] {
-				if it.h != nil && it.delivered.Load() == 0 && it.cancelAt.Load() == 0 {
+				if it.h != nil && it.delivered.Load() == 0 && it.cancelAt.Load() == 0 && (!it.far || strings.Contains(fl, "i")) {
 					n++
 				}
 			}
@@ -2093,6 +2295,14 @@ func runQSess(r *rec, sub uint64, producers, consumers, m int, fl string, reps i
 		if !strings.Contains(fl, "c") && m == 0 {
 			if n := pending(); n > 0 {
 				failf("eventually-delivered", fmt.Sprintf("%d element(s) whose Add returned non-nil, not cancelled, no size bound, no CancelPendingElements, were never delivered (shutdown flags %q)", n, fl), "missing-delivery")
+			}
+		}
+		for _, it := range farItems {
+			if it.delivered.Load() > 0 && !strings.Contains(fl, "i") {
+				failf("never-early", "an element due in centuries was delivered", "early")
+			}
+			if it.h != nil {
+				it.h.Cancel() // lets go the consumer that holds it
 			}
 		}
 		if !midway {
@@ -2125,6 +2335,100 @@ func runQSess(r *rec, sub uint64, producers, consumers, m int, fl string, reps i
 	r.CountN("stress-events", len(evs))
 	r.Count("qsess:" + fl)
 	r.Nontrivial(fmt.Sprintf("qsess-%d-%d-%d-%s", producers, consumers, m, fl))
+}
+
+// runQPanic: Shutdown(PanicOnModificationsAfterShutdown) with elements pending, then a modification whose panic the
+// caller recovers: the pending elements are neither cancelled nor excused and must still be delivered, and Cancel
+// must still return (the refused Add must not leave the queue locked).
+func runQPanic(r *rec, sub uint64, reps int) {
+	op := fmt.Sprintf("qpanic %d", reps)
+	var fails []finding
+	failf := func(oracle, detail, o string) {
+		fails = append(fails, finding{oracle, "qpanic: " + detail, map[string]string{"oracle": o, "mode": "qpanic"}, true})
+	}
+	within := func(d time.Duration, f func()) bool {
+		done := make(chan struct{})
+		go func() { f(); close(done) }()
+		select {
+		case <-done:
+			return true
+		case <-time.After(d):
+			return false
+		}
+	}
+	for rep := 0; rep < reps; rep++ {
+		// bare queue
+		q := timed.NewQueue[*int]()
+		base := time.Now()
+		vals := []int{0, 1, 2}
+		var hs []*timed.QueueElement[*int]
+		for i := range vals {
+			hs = append(hs, q.Add(&vals[i], base.Add(time.Duration(3+2*i)*time.Millisecond)))
+		}
+		q.Shutdown(timed.PanicOnModificationsAfterShutdown)
+		v := 9
+		if p := hx.Safely(func() { q.Add(&v, base.Add(time.Millisecond)) }); p == "" {
+			failf("harness", "Add on a queue shut down with PanicOnModificationsAfterShutdown did not panic", "no-panic")
+		}
+		var got [3]atomic.Int32
+		consumer := make(chan struct{})
+		go func() {
+			defer close(consumer)
+			for x := q.Poll(true); x != nil; x = q.Poll(true) {
+				got[*x].Add(1)
+			}
+		}()
+		if !within(3*time.Second, func() { hs[1].Cancel() }) {
+			failf("hang", "QueueElement.Cancel() did not return after a recovered panic of Add on the shut down queue", "hang")
+		}
+		time.Sleep(12 * time.Millisecond)
+		for i := 0; i < 300 && (got[0].Load() == 0 || got[2].Load() == 0); i++ {
+			time.Sleep(5 * time.Millisecond)
+		}
+		if got[0].Load() != 1 || got[2].Load() != 1 {
+			failf("eventually-delivered", fmt.Sprintf("Queue: Shutdown(PanicOnModificationsAfterShutdown) with 3 elements pending, a refused Add (panic recovered), Cancel of the second: the other two were delivered %d and %d times", got[0].Load(), got[2].Load()), "missing-delivery")
+		}
+		if got[1].Load() != 0 {
+			failf("cancel-honoured", "Queue: the cancelled element was delivered", "ran-after-element-cancel")
+		}
+		select {
+		case <-consumer:
+		case <-time.After(3 * time.Second):
+			failf("hang", "Poll(true) did not return on the shut down, empty queue", "hang")
+		}
+		// TaskExecutor
+		te := timed.NewTaskExecutor[int](2)
+		base = time.Now()
+		var ran [3]atomic.Int32
+		for i := 0; i < 3; i++ {
+			te.ExecuteAt(i+1, func() { ran[i].Add(1) }, base.Add(time.Duration(3+2*i)*time.Millisecond))
+		}
+		te.Shutdown(timed.PanicOnModificationsAfterShutdown, timed.DontWaitForShutdown)
+		if p := hx.Safely(func() { te.ExecuteAfter(7, func() {}, time.Millisecond) }); p == "" {
+			failf("harness", "ExecuteAfter on an executor shut down with PanicOnModificationsAfterShutdown did not panic", "no-panic")
+		}
+		cres := false
+		if !within(3*time.Second, func() { cres = te.Cancel(3) }) {
+			failf("hang", "TaskExecutor.Cancel did not return after a recovered panic of ExecuteAfter on the shut down executor", "hang")
+		} else if !cres {
+			failf("cancel-result", "TaskExecutor.Cancel of a pending task returned false", "cancel-false-but-pending")
+		}
+		for i := 0; i < 300 && (ran[0].Load() == 0 || ran[1].Load() == 0); i++ {
+			time.Sleep(5 * time.Millisecond)
+		}
+		if ran[0].Load() != 1 || ran[1].Load() != 1 || ran[2].Load() != 0 {
+			failf("eventually-delivered", fmt.Sprintf("TaskExecutor: Shutdown(PanicOnModificationsAfterShutdown, DontWaitForShutdown) with 3 tasks pending, a refused ExecuteAfter (panic recovered), Cancel(3): the tasks ran %d, %d and %d times", ran[0].Load(), ran[1].Load(), ran[2].Load()), "missing-delivery")
+		}
+	}
+	r.Line(op, "done")
+	seen := map[string]bool{}
+	for _, f := range fails {
+		if !seen[f.oracle+f.sig["oracle"]] {
+			seen[f.oracle+f.sig["oracle"]] = true
+			r.Fail(f.oracle, f.detail, f.sig)
+		}
+	}
+	r.Nontrivial("qpanic")
 }
 
 func b2i(b bool) int {
@@ -2218,6 +2522,8 @@ func execDescriptor(j job, unit time.Duration) *rec {
 		runQSeqs(r, j.Sub, at(1))
 	case len(f) >= 2 && f[0] == "qseq":
 		runQSeqLine(r, j.Desc)
+	case len(f) == 2 && f[0] == "qpanic":
+		runQPanic(r, j.Sub, at(1))
 	case len(f) == 6 && f[0] == "qsess":
 		runQSess(r, j.Sub, at(1), at(2), at(3), f[4], at(5))
 	default:
@@ -2272,7 +2578,7 @@ func main() {
 		j := job{Sub: r.Seed, Desc: "seq " + strings.Join(keep, " | ")}
 		if len(keep) > 0 {
 			switch strings.Fields(keep[0])[0] {
-			case "stress", "burst", "addrace", "addburst", "sdrace", "cancelrace", "qseq", "qsess":
+			case "stress", "burst", "addrace", "addburst", "sdrace", "cancelrace", "qseq", "qsess", "qpanic":
 				j.Desc = keep[0]
 			}
 		}
@@ -2328,6 +2634,7 @@ func main() {
 		}
 		stress("cancelrace %d %d", wk, reps)
 	}
+	stress("qpanic %d", 2*r.Scale)
 	stress("qseqs %d", 150*r.Scale)
 	for _, cfg := range []struct {
 		p, c, m int
